@@ -140,8 +140,16 @@ func (f *fixedAccounts) SyncCommitteeAccountsForEpoch(context.Context, phase0.Ep
 	return f.all(), nil
 }
 
-func (f *fixedAccounts) SyncCommitteeAccountsForEpochByIndex(_ context.Context, _ phase0.Epoch, indices []phase0.ValidatorIndex) (map[phase0.ValidatorIndex]e2wtypes.Account, error) {
-	return f.byIndex(indices), nil
+// SyncCommitteeAccountsForEpochByIndex: a validator that is still in the sync
+// committee may have no account any more (exited); scripted by the scenario.
+func (f *fixedAccounts) SyncCommitteeAccountsForEpochByIndex(_ context.Context, epoch phase0.Epoch, indices []phase0.ValidatorIndex) (map[phase0.ValidatorIndex]e2wtypes.Account, error) {
+	res := f.byIndex(indices)
+	for v := range res {
+		if f.f.hit("no-account", uint64(epoch)<<4^uint64(v)) {
+			delete(res, v)
+		}
+	}
+	return res, nil
 }
 
 func (f *fixedAccounts) AccountByPublicKey(_ context.Context, pubkey phase0.BLSPubKey) (e2wtypes.Account, error) {
